@@ -29,11 +29,11 @@ def mutants(r, img, quick):
     out = []
     L = len(img)
     # every truncation point (sampled for long images)
-    cuts = range(L) if L <= (150 if quick else 600) else sorted(set(r.randrange(L) for _ in range(150 if quick else 600)))
+    cuts = range(L) if L <= (110 if quick else 600) else sorted(set(r.randrange(L) for _ in range(110 if quick else 600)))
     for k in cuts:
         out.append(img[:k])
     # single-byte substitutions: all positions for short images, sampled otherwise
-    pos = range(L) if L <= (50 if quick else 250) else sorted(set(r.randrange(L) for _ in range(50 if quick else 250)))
+    pos = range(L) if L <= (40 if quick else 250) else sorted(set(r.randrange(L) for _ in range(40 if quick else 250)))
     for p in pos:
         for v in {0, 1, 2, 3, 6, 7, 13, 17, 0x7f, 0x80, 0xff, (img[p] + 1) & 255, (img[p] - 1) & 255}:
             if v != img[p]:
@@ -76,7 +76,7 @@ def run(ctx):
         return ctx.finish()
     r = ctx.rng
     t0 = time.time()
-    imgs = valid_images(ctx, h, 10 if quick else 60)
+    imgs = valid_images(ctx, h, 8 if quick else 60)
     cases = []
     for im in imgs:
         cases.append(im)
@@ -105,7 +105,7 @@ def run(ctx):
         if c not in seen:
             seen.add(c); uniq.append(c)
     lines = [c.hex() for c in uniq]
-    impl = ctx.run_lines_robust(h, ["deser"], lines, env={"HARNESS_LINE_TIMEOUT_S": "6", "VERIF_MEM_LIMIT_GB": "4"}, workers=6)
+    impl = ctx.run_lines_robust(h, ["deser"], lines, env={"HARNESS_LINE_TIMEOUT_S": "6", "VERIF_MEM_LIMIT_GB": "4"}, workers=10)
     model = ctx.run_lines(core.DRIVER, ["serde"], lines, timeout=1500)[1]
     dist = {}
     resave, ridx = [], []
